@@ -29,7 +29,7 @@ def snake(name):
 def run(ctx):
     b = ctx.bin
     if b is None:
-        ctx.anchor_lost('C16.anchor', 'binary crate facts')
+        ctx.anchor_lost('C16.anchor', 'binary crate facts', hard=True)
         return
     m = ctx.fn('bin', 'main', 'C16.anchor')
     # ---------------- (1) tables
